@@ -31,6 +31,11 @@ type c34Op struct {
 	Dict bool   `json:"dict,omitempty"` // write: batch with a dictionary column (serialised path)
 	N    int    `json:"n,omitempty"`    // fill: allocations attempted
 	Why  string `json:"why,omitempty"`  // generator's intent
+	// Peer: the operation goes through a second handle attached to the same
+	// segment (another process's view) instead of the creator's
+	Peer bool `json:"peer,omitempty"`
+	// Pub: a free goes through the exported FreeOffset
+	Pub bool `json:"pub,omitempty"`
 }
 
 type c34Case struct {
@@ -139,6 +144,7 @@ func genC34(t *rapid.T) c34Case {
 				op.Size, op.Why = int64(rapid.IntRange(1, 96).Draw(t, "smallsz")), "small"
 			}
 			m.alloc(op.Size)
+			op.Peer = rapid.IntRange(0, 2).Draw(t, "peer") == 0
 			c.Ops = append(c.Ops, op)
 		case k < 84:
 			op := c34Op{K: "free"}
@@ -163,6 +169,8 @@ func genC34(t *rapid.T) c34Case {
 				op.Off, op.Why = rapid.Uint64Range(hdrSize, uint64(hdrSize+data)).Draw(t, "anyoff"), "garbage-any"
 			}
 			m.free(op.Off)
+			op.Peer = rapid.IntRange(0, 2).Draw(t, "fpeer") == 0
+			op.Pub = rapid.IntRange(0, 2).Draw(t, "fpub") == 0
 			c.Ops = append(c.Ops, op)
 		case k < 96:
 			op := c34Op{K: "write", Rows: rapid.IntRange(1, 4).Draw(t, "wrows"), Dict: rapid.IntRange(0, 3).Draw(t, "wdict") == 0}
@@ -194,6 +202,27 @@ func runC34(c c34Case) (out lib.Outcome) {
 		return
 	}
 	defer seg.Close()
+	// the peer's handle: attached, not created
+	var peer *vgirpc.ShmSegment
+	peerOf := func(op c34Op) *vgirpc.ShmSegment {
+		if !op.Peer {
+			return seg
+		}
+		if peer == nil {
+			p, perr := vgirpc.ShmAttach(seg.Name(), size, false)
+			if perr != nil {
+				return nil
+			}
+			peer = p
+		}
+		out.Label("via-peer-handle")
+		return peer
+	}
+	defer func() {
+		if peer != nil {
+			peer.Close()
+		}
+	}()
 	raw, err := openRaw(seg.Name(), size)
 	if err != nil {
 		out.Violate("C34/segment-file", "segment %s created with %d bytes cannot be opened by another mapping: %v", seg.Name(), size, err)
@@ -259,7 +288,12 @@ func runC34(c c34Case) (out lib.Outcome) {
 			wantOff, wantOK, hole := m.alloc(op.Size)
 			var off uint64
 			var ok bool
-			if p := guard(func() { off, ok = vgirpc.VerifShmAllocate(seg, int(op.Size)) }); p != "" {
+			hnd := peerOf(op)
+			if hnd == nil {
+				out.Violate("C34/attach-refused", "data=%d step %d: ShmAttach for the peer handle failed", c.Data, i)
+				return
+			}
+			if p := guard(func() { off, ok = vgirpc.VerifShmAllocate(hnd, int(op.Size)) }); p != "" {
 				out.Violate("C34/alloc-panic", "data=%d step %d alloc(%d) panicked: %s", c.Data, i, op.Size, p)
 				return
 			}
@@ -301,7 +335,18 @@ func runC34(c c34Case) (out lib.Outcome) {
 		case "free":
 			wantOK := m.free(op.Off)
 			var ferr error
-			if p := guard(func() { ferr = vgirpc.VerifShmFree(seg, op.Off) }); p != "" {
+			hnd := peerOf(op)
+			if hnd == nil {
+				out.Violate("C34/attach-refused", "data=%d step %d: ShmAttach for the peer handle failed", c.Data, i)
+				return
+			}
+			if p := guard(func() {
+				if op.Pub {
+					ferr = hnd.FreeOffset(op.Off)
+				} else {
+					ferr = vgirpc.VerifShmFree(hnd, op.Off)
+				}
+			}); p != "" {
 				out.Violate("C34/free-panic", "data=%d step %d free(%d) panicked: %s", c.Data, i, op.Off, p)
 				return
 			}
@@ -419,7 +464,7 @@ var propC34 = lib.Prop[c34Case]{
 		"Non-trivial: the history contains a free followed by an allocation placed in a hole (not the tail gap).",
 	Gen:          genC34,
 	Run:          runC34,
-	Essential:    []string{"hole-fit", "alloc-fail", "alloc-exact-gap", "free-garbage", "free-live", "write-ok", "write-nofit", "fill-max", "op:reset"},
+	Essential:    []string{"via-peer-handle", "count-limit-reject", "hole-fit", "alloc-fail", "alloc-exact-gap", "free-garbage", "free-live", "write-ok", "write-nofit", "fill-max", "op:reset"},
 	EssentialMin: 300,
 	Assumptions: []string{"allocate(size<=0) is expected to fail (a zero-length region cannot satisfy the table clause)",
 		"AllocateAndWrite may refuse a batch whose documented upper bound (buffers+4096) does not fit although the exact bytes would"},
